@@ -315,6 +315,11 @@ func runC18(c *Ctx) {
 		}
 	}
 
+	// R18.13 comments that nest, nest to any depth: in the loop that reads a multi-line comment of a language with nested
+	// comments, an integer counts the open comments - every nested start delimiter adds one, an end delimiter takes one off
+	// while the count is positive, and the comment ends only on an end delimiter at count zero.
+	checkNestingCounter(c, p, lexFns, match)
+
 	// R18.8 the text that is lexed is the input itself
 	checkParseInput(c, p)
 
@@ -737,4 +742,176 @@ func fnIn(l []*ssa.Function, f *ssa.Function) bool {
 		}
 	}
 	return false
+}
+
+
+// checkNestingCounter: R18.13.
+func checkNestingCounter(c *Ctx, p *core.Prog, lexFns []*ssa.Function, match *ssa.Function) {
+	nLoops := 0
+	for _, fn := range lexFns {
+		for _, call := range core.CallsIn(fn) {
+			nc, ok := call.(*ssa.Call)
+			if !ok || nc.Call.StaticCallee() == nil || nc.Call.StaticCallee().Name() != "NestedComments" {
+				continue
+			}
+			// the innermost loop around the test
+			var h *ssa.BasicBlock
+			for d := nc.Block(); d != nil && h == nil; d = d.Idom() {
+				for _, pr := range d.Preds {
+					if d.Dominates(pr) && reaches(nc.Block(), d) {
+						h = d
+					}
+				}
+			}
+			if h == nil {
+				continue
+			}
+			nLoops++
+			inLoop := func(b *ssa.BasicBlock) bool { return h.Dominates(b) && reaches(b, h) }
+			holds := func(b *ssa.BasicBlock, to *ssa.BasicBlock, v ssa.Value, truth bool) bool {
+				fs := append([]core.Fact{}, core.FactsAt(b)...)
+				if ifi, ok := b.Instrs[len(b.Instrs)-1].(*ssa.If); ok && to != nil && len(b.Succs) == 2 && b.Succs[0] != b.Succs[1] {
+					cond, tr := ifi.Cond, b.Succs[0] == to
+					for {
+						if u, ok := cond.(*ssa.UnOp); ok && u.Op == token.NOT {
+							cond, tr = u.X, !tr
+							continue
+						}
+						break
+					}
+					fs = append(fs, core.Fact{Cond: cond, Truth: tr, If: ifi})
+				}
+				for _, f := range fs {
+					if f.Cond == v && f.Truth == truth {
+						return true
+					}
+				}
+				return false
+			}
+			var mStart, mEnd []*ssa.Call
+			for _, b := range fn.Blocks {
+				if !inLoop(b) {
+					continue
+				}
+				for _, in := range b.Instrs {
+					mc, ok := in.(*ssa.Call)
+					if !ok || mc.Call.StaticCallee() != match {
+						continue
+					}
+					if holds(b, nil, nc, true) {
+						mStart = append(mStart, mc)
+					} else {
+						mEnd = append(mEnd, mc)
+					}
+				}
+			}
+			if len(mStart) == 0 || len(mEnd) == 0 {
+				c.R.Undecided("R18.13", fn.Name()+": nested comment loop", p.Pos(nc.Pos()), "cannot tell the match of the nested start delimiter from the match of the end delimiter")
+				continue
+			}
+			anyTrue := func(b, to *ssa.BasicBlock, ms []*ssa.Call) bool {
+				for _, m := range ms {
+					if holds(b, to, m, true) {
+						return true
+					}
+				}
+				return false
+			}
+			// a counter: an integer phi of the loop head that starts at 0
+			okCounter, why := false, "no integer of the loop counts the open comments"
+			for _, in := range h.Instrs {
+				n, ok := in.(*ssa.Phi)
+				if !ok {
+					break
+				}
+				if bt, isB := n.Type().Underlying().(*types.Basic); !isB || bt.Info()&types.IsInteger == 0 {
+					continue
+				}
+				good, nUp, nDown := true, 0, 0
+				w := ""
+				positive := func(b, to *ssa.BasicBlock) bool {
+					fs := append([]core.Fact{}, core.FactsAt(b)...)
+					for _, f := range fs {
+						if cmp, ok := f.AsCmp(); ok && cmp.X == ssa.Value(n) {
+							if k, isK := core.ConstInt(cmp.Y); isK && ((cmp.Op == token.GTR && k >= 0) || (cmp.Op == token.GEQ && k >= 1) || (cmp.Op == token.NEQ && k == 0)) {
+								return true
+							}
+						}
+					}
+					return false
+				}
+				for k, pb := range h.Preds {
+					e := n.Edges[k]
+					if !inLoop(pb) {
+						if v, isK := core.ConstInt(e); !isK || v != 0 {
+							good, w = false, "the count does not start at zero"
+						}
+						continue
+					}
+					d := core.LinOf(e, nil).Add(core.LinOf(n, nil), -1)
+					isConst := true
+					for _, cf := range d.Coef {
+						if cf != 0 {
+							isConst = false
+						}
+					}
+					switch {
+					case !isConst:
+						good, w = false, "the count is changed by something else than a constant"
+					case anyTrue(pb, h, mStart):
+						nUp++
+						if d.Const != 1 {
+							good, w = false, fmt.Sprintf("a nested start delimiter changes the count by %+d", d.Const)
+						}
+					case anyTrue(pb, h, mEnd):
+						nDown++
+						if d.Const != -1 || !positive(pb, h) {
+							good, w = false, "an end delimiter inside the comment does not take exactly one off a positive count"
+						}
+					default:
+						if d.Const != 0 {
+							good, w = false, "the count changes on a path that matched no delimiter"
+						}
+					}
+				}
+				// the loop is left on an end delimiter only when the count is not positive
+				for _, b := range fn.Blocks {
+					if !inLoop(b) {
+						continue
+					}
+					for _, sc := range b.Succs {
+						if inLoop(sc) || !anyTrue(b, sc, mEnd) {
+							continue
+						}
+						closed := false
+						fs := append([]core.Fact{}, core.FactsAt(b)...)
+						if ifi, ok := b.Instrs[len(b.Instrs)-1].(*ssa.If); ok && len(b.Succs) == 2 {
+							fs = append(fs, core.Fact{Cond: ifi.Cond, Truth: b.Succs[0] == sc, If: ifi})
+						}
+						for _, f := range fs {
+							if cmp, ok := f.AsCmp(); ok && cmp.X == ssa.Value(n) {
+								if k, isK := core.ConstInt(cmp.Y); isK && ((cmp.Op == token.LEQ && k == 0) || (cmp.Op == token.EQL && k == 0) || (cmp.Op == token.LSS && k == 1)) {
+									closed = true
+								}
+							}
+						}
+						if !closed {
+							good, w = false, "the comment can end on an end delimiter while the count is positive"
+						}
+					}
+				}
+				if good && nUp > 0 && nDown > 0 {
+					okCounter, why = true, fmt.Sprintf("counter %s: +1 on %d way(s) back after a nested start, -1 (behind count > 0) on %d way(s) back after an end, unchanged otherwise; the comment ends at count 0", n.Comment, nUp, nDown)
+				} else if w != "" && nUp+nDown > 0 {
+					why = w
+				}
+			}
+			c.R.Check(okCounter, "R18.13", fn.Name()+": the depth of nested comments is counted", p.Pos(nc.Pos()), why,
+				why+": a comment nested two or more levels deep is closed by the wrong end delimiter and the rest of it is lexed as code")
+		}
+	}
+	c.R.Count("R18.13:loops that read comments of languages with nested comments", nLoops)
+	if nLoops == 0 {
+		c.R.Info("R18.13", "nested comments", "-", "no loop tests Language.NestedComments")
+	}
 }
